@@ -158,6 +158,26 @@ def check(run):
         run.traces_validated += 1
         if c["fn"] == "root" and tc["allowed"] == ["built"]:
             run.sample({"abstract": c, "allowed": tc["allowed"]}, cap=2)
+    # the clock helper behind the default dates: canonical UTC spelling of now + delta, for a grid of deltas
+    import re as _re
+    for days, secs in [(0, 0), (365, 0), (31, 0), (-1, 0), (0, 1), (0, 86399), (366, 5), (3650, 0), (0, -1), (40000, 0)]:
+        d = datetime.timedelta(days=days, seconds=secs)
+        t0 = datetime.datetime.utcnow().replace(microsecond=0)
+        s = common.iso8601_time_plus_delta(d)
+        t1 = datetime.datetime.utcnow().replace(microsecond=0)
+        run.evaluations += 1
+        if not _re.fullmatch(r"[0-9]{4}-[0-9]{2}-[0-9]{2}T[0-9]{2}:[0-9]{2}:[0-9]{2}Z", s) or twins.twin_date(s) != twins.ACCEPT:
+            run.violation("iso8601_time_plus_delta does not produce a well-formed UTC timestamp", {"kind": "builder", "delta": str(d), "got": s})
+        else:
+            got = datetime.datetime.strptime(s, FMT)
+            if not (t0 + d <= got <= t1 + d):
+                run.violation("iso8601_time_plus_delta is not current UTC time plus the given delta", {"kind": "builder", "delta": str(d), "got": s})
+    for bad in (None, 5, "1 day", 1.5):
+        try:
+            common.iso8601_time_plus_delta(bad)
+            run.violation("iso8601_time_plus_delta accepts something that is not a timedelta", {"kind": "builder", "value": repr(bad)})
+        except (TypeError, ValueError):
+            pass
     # built root chains: v(n) -> v(n+1) -> v(n+2), threshold-signed with the OpenPGP signer, judged by Trace_Root.tla
     keys = gamma.Keys(4, run.seed, offset=700)
     traces, conc = [], {}
